@@ -2,6 +2,8 @@
 
 package value
 
+import "github.com/smarthome-go/homescript/v3/homescript/analyzer/ast"
+
 // Specification vocabulary and contracts checked by /verif/hvc (build tag
 // verif only; see /verif/DESIGN.md).
 
@@ -33,4 +35,109 @@ package value
     trusted
     modifies nothing
     ensures ret1 == nil ==> ret0 != nil
+@*/
+
+// ---------------------------------------------------------------------------
+// C12: the dynamic-to-static type boundary
+
+/*@ assume-invariant []*runtime/value.Value elems-nonnil @*/
+
+/*@ assume-invariant map[string]*runtime/value.Value elems-nonnil @*/
+
+// kindConforms: the kind of the runtime value v is the one the static type t admits.
+func kindConforms(v Value, t ast.Type) bool {
+	if v == nil || t == nil {
+		return false
+	}
+	switch t.Kind() {
+	case ast.AnyTypeKind:
+		return true
+	case ast.NullTypeKind:
+		return v.Kind() == NullValueKind
+	case ast.IntTypeKind:
+		return v.Kind() == IntValueKind
+	case ast.FloatTypeKind:
+		return v.Kind() == FloatValueKind
+	case ast.BoolTypeKind:
+		return v.Kind() == BoolValueKind
+	case ast.StringTypeKind:
+		return v.Kind() == StringValueKind
+	case ast.RangeTypeKind:
+		return v.Kind() == RangeValueKind
+	case ast.ListTypeKind:
+		return v.Kind() == ListValueKind
+	case ast.ObjectTypeKind:
+		return v.Kind() == ObjectValueKind
+	case ast.AnyObjectTypeKind:
+		return v.Kind() == AnyObjectValueKind
+	case ast.OptionTypeKind:
+		return v.Kind() == OptionValueKind
+	}
+	return false
+}
+
+// conforms: the runtime value v is admissible at the static type t: its kind
+// is the one t admits and, for an option that holds a value, that value's
+// kind is the one the option's inner type admits. (Elements of lists and
+// fields of objects are the obligations of the recursive calls of the cast.)
+func conforms(v Value, t ast.Type) bool {
+	if !kindConforms(v, t) {
+		return false
+	}
+	if t.Kind() == ast.OptionTypeKind {
+		o, ok := v.(ValueOption)
+		ot, isOpt := t.(ast.OptionType)
+		if !ok || !isOpt {
+			return false
+		}
+		return o.Inner == nil || (*o.Inner != nil && kindConforms(*o.Inner, ot.Inner))
+	}
+	return true
+}
+
+// isScalarType: the types whose values carry no nested values.
+func isScalarType(t ast.Type) bool {
+	switch t.Kind() {
+	case ast.NullTypeKind, ast.IntTypeKind, ast.FloatTypeKind, ast.BoolTypeKind, ast.StringTypeKind, ast.RangeTypeKind:
+		return true
+	}
+	return false
+}
+
+// shallowWF: the immediate components of a value are present (list elements
+// and object fields are non-nil pointers to values; an option's inner
+// pointer, when set, points to a value).
+func shallowWF(v Value) bool {
+	switch x := v.(type) {
+	case ValueOption:
+		return x.Inner == nil || *x.Inner != nil
+	case ValueList:
+		return x.Values != nil
+	}
+	return v != nil
+}
+
+/*@ func deepCastRecursive
+    serves C12, C02
+    assumepre deepCastRecursive
+    requires val != nil && ast.VTypeWF(typ) && shallowWF(val)
+    modifies nothing
+    ensures @result ret1 == nil ==> ret0 != nil && *ret0 != nil
+    ensures @sound ret1 == nil ==> conforms(*ret0, typ)
+    ensures @unchanged ret1 == nil && !allowCasts && isScalarType(typ) ==> *ret0 == val
+    ensures @complete conforms(val, typ) && isScalarType(typ) ==> ret1 == nil
+    ensures @refused ret1 != nil ==> ret0 == nil
+    ensures @strict-scalars !allowCasts && isScalarType(typ) && !conforms(val, typ) ==> ret1 != nil
+    loop 4 invariant cap(outputList) == 0 || fresh(outputList)
+@*/
+
+/*@ func DeepCast
+    serves C12, C02
+    requires val != nil && ast.VTypeWF(typ) && shallowWF(val)
+    modifies nothing
+    ensures @result ret1 == nil ==> ret0 != nil && *ret0 != nil
+    ensures @sound ret1 == nil ==> conforms(*ret0, typ)
+    ensures @unchanged ret1 == nil && !allowCasts && isScalarType(typ) ==> *ret0 == val
+    ensures @complete conforms(val, typ) && isScalarType(typ) ==> ret1 == nil
+    ensures @strict-scalars !allowCasts && isScalarType(typ) && !conforms(val, typ) ==> ret1 != nil
 @*/
